@@ -23,7 +23,7 @@ import random
 from sim import aioloop as A
 from sim.adata import PrivateAbort, PrivateFault
 from sim.core import Outcome, digest, exc_key, scrub
-from sim.envs import CodeMemo
+from sim.envs import AE_MODES, CodeMemo
 from sim.probe import PEvents, make_probe_data
 from sim.tape import Tape, run_seed
 from sim.workload import Gen
@@ -76,7 +76,7 @@ def _make_env(P, sandboxed, is_async, ae, lc):
 
     cls = SandboxedEnvironment if sandboxed else jinja2.Environment
     env = cls(
-        loader=jinja2.DictLoader(P.templates), enable_async=is_async, autoescape=ae,
+        loader=jinja2.DictLoader(P.templates), enable_async=is_async, autoescape=AE_MODES[ae],
         extensions=["jinja2.ext.loopcontrols"] if lc else [],
         bytecode_cache=CodeMemo(("c38", sandboxed, is_async, ae, lc)),
     )
@@ -159,7 +159,7 @@ def run(tape: Tape) -> Outcome:
     out = Outcome()
     sandboxed = bool(tape.draw(2))
     is_async = bool(tape.draw(2))
-    ae = bool(tape.draw(2))
+    ae = tape.draw(3)  # autoescape: off, on, by template name (callable)
     lc = bool(tape.draw(2))
     size = 2 + tape.draw(4)
     P = Gen(tape, is_async=is_async, probe=True, loopcontrols=lc, size=size, env_globals=True).generate()
